@@ -1,6 +1,7 @@
 import CifModel.Lemmas.Value
 import CifModel.Lemmas.HeapMap
 import CifModel.Lemmas.HeapPacket
+import CifModel.Lemmas.HeapClone
 import CifModel.Gen.ValueCols
 /-
   Property C19 — value objects are independent deep values; lists and tables keep their contracts.
@@ -220,14 +221,17 @@ theorem C19_wrong_kind (norm : Str → Option Str) (v : V) (i : Nat) (key : Str)
   · intro h; cases v <;> first | (exact absurd rfl (h _)) | simp [tableGet, tableSet, tableRemove, tableKeys]
   · intro h1 h2; cases v <;> first | (exact absurd rfl (h1 _)) | (exact absurd rfl (h2 _)) | simp [elementCount]
 
-/-- **Clone is equal**: kind, text, quoting, numeric attributes and the full recursive structure -/
+/-- **Clone is equal**, pure level: kind, text, quoting, numeric attributes and the full recursive structure.  In the pure
+    model values are immutable trees and `clone` is the identity, so this statement is definitional; the statement with
+    content is at heap level — `C19_clone_reads_source`: the clone that follows the source's pointers cell by cell yields a
+    structure that represents the same value. -/
 theorem C19_clone_equal (v : V) : clone v = v ∧ (clone v == v) = true ∧ kind (clone v) = kind v :=
   ⟨rfl, beq_refl v, rfl⟩
 
-/-- **(Re)initialisers release the previous content** (pure level: nothing of it remains observable): the result of
-    `cif_value_init`, `cif_value_init_char` / `copy_char` and `cif_value_clean` does not depend on what the object held,
-    and a cleaned object has no members. -/
-theorem C19_reinit_releases (v w : V) (kind : Nat) (t : Str) (s : Step) (p : List Step) :
+/-- (re)initialisers, pure level: the result of `cif_value_init`, `cif_value_init_char` / `copy_char` and `cif_value_clean`
+    does not depend on what the object held, and a cleaned object has no members.  (Definitional in the pure model; that the
+    previous content is RELEASED is `C19_reinit_releases`, at heap level.) -/
+theorem C19_reinit_result_independent (v w : V) (kind : Nat) (t : Str) (s : Step) (p : List Step) :
     init v kind = init w kind ∧ initChar v (some t) = initChar w (some t) ∧ clean v = clean w
     ∧ resolve (clean v) (s :: p) = none ∧ (initChar v none).2 = v := by
   refine ⟨?_, rfl, rfl, ?_, rfl⟩
@@ -532,6 +536,160 @@ theorem C16_cex_F10_pinned :
     ∧ (match packetEntryCreate Heap.empty (a!"_a") (a!"_a") with
        | (e, h1) => (entryRespell false h1 e (a!"_A")).bind (fun h2 => entryKey h2 e)) = some (a!"_a") := by
   constructor <;> rfl
+
+/-! ### the clone reads its source; containers read the caller's object (Model/HeapClone) -/
+
+/-- **C19_clone_reads_source** — `cloneH` follows the pointers of the source object (text, digit strings, element array and
+    every element object, every entry with both keys and its inline value) and copies block by block; it is NOT given the
+    value.  On any represented source, of any depth: it touches live blocks only (`some`), the structure it yields
+    represents the SAME pure value (kind, text, quoted flag, sign, digits, su digits, scale, element order, keys in both
+    spellings — everything `V` records), on blocks that did not exist before (disjoint from the source), the source and
+    every other block are unchanged, and releasing the clone restores the heap cell for cell. -/
+theorem C19_clone_reads_source (h : Heap) (hw : h.WF) (hv : HVal) (v : V) (F : List Nat) (hr : Rep h hv v F)
+    (hF : ∀ a, a ∈ F → a < h.next) (fuel : Nat) (hf : need v ≤ fuel) :
+    ∃ hv' h1 F', cloneH fuel h hv = some (hv', h1) ∧ Rep h1 hv' v F' ∧ Rep h1 hv v F ∧ disjoint F F' ∧ h1.WF
+      ∧ (∀ a, a < h.next → h1.cell a = h.cell a)
+      ∧ (∀ a, a ∈ F' → h.next ≤ a ∧ a < h1.next)
+      ∧ (∃ h2, cleanVal (need v) h1 hv' = some h2 ∧ Rep h2 hv v F ∧ ∀ a, h2.cell a = h.cell a)
+      ∧ (∃ h2, cleanVal (need v) h1 hv = some h2 ∧ Rep h2 hv' v F') := by
+  have hc := cloneH_build v h hw hv F fuel hr hF hf
+  generalize hb : buildVal h v = r at hc
+  obtain ⟨hv', h1⟩ := r
+  obtain ⟨e1, F', hrep', hrange, hcover⟩ := buildVal_spec v h hw hv' h1 hb
+  have horig : Rep h1 hv v F := Rep_congr h h1 v hv F (fun a ha => e1.frame a (hF a ha)) hr
+  have hdis : disjoint F F' := fun a ha hb' => by have := hF a ha; have := (hrange a hb').1; omega
+  obtain ⟨h2, hc2, c2⟩ := cleanVal_spec v h1 hv' F' (need v) hrep' (Nat.le_refl _)
+  obtain ⟨h3, hc3, c3⟩ := cleanVal_spec v h1 hv F (need v) horig (Nat.le_refl _)
+  refine ⟨hv', h1, F', hc, hrep', horig, hdis, e1.wf, e1.frame, hrange, ⟨h2, hc2, ?_, ?_⟩, ⟨h3, hc3, ?_⟩⟩
+  · apply Rep_congr h1 h2 v hv F _ horig
+    intro a ha; rw [c2.2 a, if_neg (hdis a ha)]
+  · intro a
+    rw [c2.2 a]
+    by_cases ha : a ∈ F'
+    · rw [if_pos ha, hw a (hrange a ha).1]
+    · rw [if_neg ha]
+      by_cases hlt : a < h.next
+      · exact e1.frame a hlt
+      · by_cases hge : h1.next ≤ a
+        · rw [e1.wf a hge, hw a (by omega)]
+        · exact absurd (hcover a (by omega) (by omega)) ha
+  · apply Rep_congr h1 h3 v hv' F' _ hrep'
+    intro a ha; rw [c3.2 a, if_neg (fun hm => hdis a hm ha)]
+
+/-- **C19_put_copies_addr — containers copy what is put into them, with the caller's object given by ADDRESS**:
+    `cif_value_insert_element_at(list, i, src)` reads the object at `src` (a free-standing object or a member of some
+    container; NULL = the unknown value), stores a copy on fresh blocks; afterwards the list represents the old list with
+    the value `src` represents spliced in at `i`, the caller's object is still represented on its own blocks, which are
+    disjoint from the list's, nothing outside the list changed, nothing leaks. -/
+theorem C19_put_copies_addr (h : Heap) (hw : h.WF) (hv : HVal) (vs : List V) (F : List Nat) (i : Nat)
+    (hr : Rep h hv (.lst vs) F) (hF : ∀ a, a ∈ F → a < h.next) (hi : i ≤ vs.length)
+    (s : Nat) (hs : HVal) (src : V) (Fs : List Nat) (hsrc : fieldsAt h s = some hs) (hrs : Rep h hs src Fs)
+    (hFs : ∀ a, a ∈ Fs → a < h.next) (hds : disjoint Fs F) (fuel : Nat) (hfuel : need src ≤ fuel) :
+    ∃ hv' h' F', listInsertAddrH fuel h hv i (some s) = some (hv', h') ∧ Rep h' hv' (.lst (vs.insertIdx i src)) F'
+      ∧ Rep h' hs src Fs ∧ disjoint Fs F' ∧ h'.WF
+      ∧ (∀ a, a ∈ F → a ∉ F' → h'.cell a = none) ∧ (∀ a, h.next ≤ a → a < h'.next → a ∈ F') := by
+  have heq := listInsertAddrH_eq h hw hv i (some s) (some src) fuel ⟨hs, Fs, hsrc, hrs, hFs, hfuel⟩
+  rw [heq]
+  exact C19_put_copies h hw hv vs F i (some src) hr hF hi hs src Fs hrs hFs hds
+
+/-- … the same for `cif_value_set_element_at(list, i, src)` with an object outside the list: the element object stays
+    where it is (references to it and to the list stay valid), now holding a copy of what `src` represents -/
+theorem C19_set_element_addr (h : Heap) (hw : h.WF) (hv : HVal) (vs : List V) (F : List Nat) (i : Nat)
+    (hr : Rep h hv (.lst vs) F) (hF : ∀ a, a ∈ F → a < h.next) (hi : i < vs.length)
+    (s : Nat) (hs : HVal) (src : V) (Fs : List Nat) (hsrc : fieldsAt h s = some hs) (hrs : Rep h hs src Fs)
+    (hFs : ∀ a, a ∈ Fs → a < h.next) (hsF : s ∉ F) (hds : ∀ a, a ∈ Fs → a ∉ F) (fuel : Nat) (hfuel : need src ≤ fuel) :
+    ∃ h' F', listSetAddrH fuel (need (.lst vs)) h hv i (some s) = some h' ∧ Rep h' hv (.lst (vs.set i src)) F' ∧ h'.WF
+      ∧ Rep h' hs src Fs
+      ∧ (∀ a, a < h.next → a ∉ F → h'.cell a = h.cell a)
+      ∧ (∀ a, a ∈ F → a ∉ F' → h'.cell a = none)
+      ∧ (∀ a, h.next ≤ a → a < h'.next → a ∈ F') := by
+  have heq := listSetAddrH_eq h hw hv vs F i (some s) (some src) hr hF hi fuel ⟨hs, Fs, hsrc, hrs, hFs, hfuel, hsF, hds⟩
+  rw [heq]
+  obtain ⟨h', F', hop, hrep, hwf, hframe, hdrop, hown, _⟩ := C19_set_replaces_in_place h hw hv vs F i (some src) hr hF hi
+  exact ⟨h', F', hop, hrep, hwf, Rep_congr h h' src hs Fs (fun a ha => hframe a (hFs a ha) (hds a ha)) hrs, hframe, hdrop, hown⟩
+
+/-- **`cif_map_set_item(map, key, src)` with the caller's object given by address** (tables: cif_value_set_item_by_key;
+    packets: cif_packet_set_item), `src` an object outside the map or NULL: the map afterwards represents
+    `mapSet es nk key (the value src represents)` — new key: appended entry with its own copies of both key strings; existing
+    key: same entry, new spelling, value replaced by a copy —, the caller's object is untouched and shares nothing with
+    the map, blocks outside the map are untouched, dropped blocks are released. -/
+theorem C19_map_set_item_addr (h : Heap) (hw : h.WF) (ents : List Nat) (es : List (Str × Str × V)) (F : List Nat)
+    (nk key : Str) (hr : RepEntries h ents es F) (hF : ∀ a, a ∈ F → a < h.next)
+    (s : Nat) (hs : HVal) (src : V) (Fs : List Nat) (hsrc : fieldsAt h s = some hs) (hrs : Rep h hs src Fs)
+    (hFs : ∀ a, a ∈ Fs → a < h.next) (hsF : s ∉ F) (hds : ∀ a, a ∈ Fs → a ∉ F) (fuel : Nat) (hfuel : need src ≤ fuel) :
+    ∃ ents' h' F', mapSetItemAddrH fuel (needEntries es) h ents nk key (some s) = some (ents', h')
+      ∧ RepEntries h' ents' (Model.Value.mapSet es nk key (some src)) F' ∧ h'.WF
+      ∧ Rep h' hs src Fs
+      ∧ (∀ a, a < h.next → a ∉ F → h'.cell a = h.cell a)
+      ∧ (∀ a, a ∈ F → a ∉ F' → h'.cell a = none)
+      ∧ (∀ a, h.next ≤ a → a < h'.next → a ∈ F' ∨ h'.cell a = none) := by
+  have heq := mapSetItemAddrH_eq h hw ents es F nk key (some s) (some src) hr hF fuel (needEntries es) (Nat.le_refl _)
+    ⟨hs, Fs, hsrc, hrs, hFs, hfuel, hsF, hds⟩
+  rw [heq]
+  obtain ⟨ents', h', F', hop, hrep, hwf, hframe, hdrop, hown, _⟩ := C16_map_set_item_heap_safe h hw ents es F nk key (some src) hr hF
+  exact ⟨ents', h', F', hop, hrep, hwf, Rep_congr h h' src hs Fs (fun a ha => hframe a (hFs a ha) (hds a ha)) hrs, hframe, hdrop, hown⟩
+
+/-- **`cif_value_clone(src, &dst)` onto an existing object, source given by address, aliasing cases included**: wherever
+    the source lies — elsewhere, inside the target, around it, or the target itself (`src = t` is allowed: `hsrc`/`hrs` then
+    describe the target) — it is read while intact (scratch copy first, order of f1b092b); the target object keeps its
+    address and afterwards represents the value the source represented before the call, on fresh blocks; what it owned is
+    released exactly once; the scratch object is gone. -/
+theorem C19_clone_onto_addr (h : Heap) (hw : h.WF) (t : Nat) (old : HVal) (vOld : V) (F : List Nat)
+    (ht : h.cell t = some (.val old)) (hr : Rep h old vOld F) (hF : ∀ a, a ∈ F → a < h.next) (htlt : t < h.next) (htF : t ∉ F)
+    (s : Nat) (hs : HVal) (x : V) (Fs : List Nat) (hsrc : fieldsAt h s = some hs) (hrs : Rep h hs x Fs)
+    (hFs : ∀ a, a ∈ Fs → a < h.next) (fuel : Nat) (hfuel : need x ≤ fuel) :
+    ∃ h' new F', cloneOntoAddrH fuel (need vOld) h t s = some h' ∧ h'.cell t = some (.val new) ∧ Rep h' new x F' ∧ h'.WF
+      ∧ (∀ a, a ∈ F' → h.next ≤ a ∧ a < h'.next)
+      ∧ (∀ a, a < h.next → a ≠ t → h'.cell a = if a ∈ F then none else h.cell a)
+      ∧ (∀ a, h.next ≤ a → a < h'.next → a ∈ F' ∨ h'.cell a = none) := by
+  rw [cloneOntoAddrH_eq h hw t s hs x Fs fuel (need vOld) hsrc hrs hFs hfuel]
+  exact (C19_clone_onto_heap h hw t old vOld F x ht hr hF htlt htF hs Fs hrs hFs).2
+
+/-- **C19_members_by_reference — containers expose their members by reference**: `cif_value_get_element_at` returns the
+    address of the element object itself and `cif_value_get_item_by_key` / `cif_packet_get_item` the address of the entry
+    whose first member is the value: blocks of the container's own footprint, no copy, the heap is not touched.  A
+    modification made through such a pointer is a modification of the container: re-initialising the element designated is
+    the same heap transformation as `cif_value_set_element_at`, and assigning through an entry's value pointer leaves the map
+    representing the association list with that value replaced (same key, spelling, position). -/
+theorem C19_members_by_reference (h : Heap) (hw : h.WF) :
+    (∀ (hv : HVal) (vs : List V) (F : List Nat) (i : Nat), Rep h hv (.lst vs) F → (∀ a, a ∈ F → a < h.next) → i < vs.length →
+      ∃ t v hvt Ft, listGetH h hv i = some t ∧ vs[i]? = some v ∧ h.cell t = some (.val hvt) ∧ Rep h hvt v Ft
+        ∧ t ∈ F ∧ (∀ a, a ∈ Ft → a ∈ F)
+        ∧ ∀ x : V, reinitH (need (.lst vs)) h t x = listSetH (need (.lst vs)) h hv i (some x)
+            ∧ ∃ h' F', reinitH (need (.lst vs)) h t x = some h' ∧ Rep h' hv (.lst (vs.set i x)) F' ∧ h'.WF
+                ∧ (∀ a, a < h.next → a ∉ F → h'.cell a = h.cell a))
+    ∧ (∀ (ents : List Nat) (es : List (Str × Str × V)) (F : List Nat) (nk : Str), RepEntries h ents es F →
+        (∀ a, a ∈ F → a < h.next) →
+        (Model.Value.mapFind es nk = none ∧ tableGetH h ents nk = some none)
+        ∨ ∃ e ko v Fe, Model.Value.mapFind es nk = some (nk, ko, v) ∧ tableGetH h ents nk = some (some e)
+            ∧ RepEntry h e nk ko v Fe ∧ (∀ a, a ∈ Fe → a ∈ F)
+            ∧ ∀ x : V, ∃ h' F', entrySetValue (needEntries es) h e (some x) = some h'
+                ∧ RepEntries h' ents (Model.Value.mapReplace es nk ko x) F' ∧ h'.WF
+                ∧ (∀ a, a < h.next → a ∉ F → h'.cell a = h.cell a)) :=
+  ⟨fun hv vs F i hr hF hi => listGetH_by_reference h hw hv vs F i hr hF hi,
+   fun ents es F nk hr hF => tableGetH_by_reference h hw ents es F nk hr hF (needEntries es) (Nat.le_refl _)⟩
+
+/-- **C19_reinit_releases — (re)initialisers release the previous content** (heap level): `cif_value_clean`, and with it
+    every re-initialiser (`cif_value_init`, `init_char`, `copy_char`, `parse_numb`, `init_numb`, `autoinit_numb` on an
+    existing object), frees exactly the blocks the old value owned — every cell of its footprint is dead afterwards, and
+    since `free` of a dead block makes the model operation fail (`none`), success means each was freed exactly once —,
+    touches no other block that existed, and the object itself stays at its address holding the new content on fresh
+    blocks. -/
+theorem C19_reinit_releases (h : Heap) (hw : h.WF) (t : Nat) (old : HVal) (vOld : V) (F : List Nat) (x : V)
+    (ht : h.cell t = some (.val old)) (hr : Rep h old vOld F) (hF : ∀ a, a ∈ F → a < h.next) (htlt : t < h.next) (htF : t ∉ F) :
+    (∃ h', cleanVal (need vOld) h old = some h' ∧ h'.next = h.next ∧ ∀ a, h'.cell a = if a ∈ F then none else h.cell a)
+    ∧ ∃ h' new F', reinitH (need vOld) h t x = some h' ∧ h'.cell t = some (.val new) ∧ Rep h' new x F' ∧ h'.WF
+        ∧ (∀ a, a ∈ F → h'.cell a = none)
+        ∧ (∀ a, a ∈ F' ↔ (h.next ≤ a ∧ a < h'.next))
+        ∧ (∀ a, a < h.next → a ≠ t → a ∉ F → h'.cell a = h.cell a) := by
+  refine ⟨C19_reinit_releases_heap h old vOld F hr, ?_⟩
+  obtain ⟨h', new, F', hop, hcell, hrep, hwf, hfresh, hcells⟩ := C19_reinit_heap h hw t old vOld F x ht hr hF htlt htF
+  refine ⟨h', new, F', hop, hcell, hrep, hwf, ?_, hfresh, ?_⟩
+  · intro a ha
+    have hne : a ≠ t := fun e => htF (e ▸ ha)
+    rw [hcells a (hF a ha) hne, if_pos ha]
+  · intro a ha hne hnF
+    rw [hcells a ha hne, if_neg hnF]
 
 end HeapLevel
 
